@@ -102,10 +102,14 @@ func (f *Do) Call(s *slip.Scope, args slip.List, depth int) (result slip.Object)
 			}
 		}
 		for _, sb := range steps {
-			sb.result = ns.Eval(sb.step, d2)
+			if sb.step != nil {
+				sb.result = ns.Eval(sb.step, d2)
+			}
 		}
 		for _, sb := range steps {
-			ns.UnsafeLet(sb.sym, sb.result)
+			if sb.step != nil {
+				ns.UnsafeLet(sb.sym, sb.result)
+			}
 		}
 	}
 	return
